@@ -283,16 +283,16 @@ theorem fuel_fparse_mutual {cfg} : ∀ f,
       have hc := look h
       have hkey : OK3 k (if ((cur s).1 == 0x22 || (cur s).1 == 0x27) = true then parseQuoted cfg (cur s).1 (f+1) [] 0 (mv (cur s).2)
             else if inUnquoted (cur s).1 = true then
-              (Code.ok, (parseUnquoted (f+1) [] (cur s).2).1, (parseUnquoted (f+1) [] (cur s).2).2)
+              ((if (parseUnquoted (f+1) [] (cur s).2).1.length > cfg.maxStrLen then Code.noMemory else Code.ok), (parseUnquoted (f+1) [] (cur s).2).1, (parseUnquoted (f+1) [] (cur s).2).2)
             else (Code.invalid, [], (cur s).2)) := by
         split
         · exact parseQuoted_ok _ _ _ _ _ (skip hc) (by omega)
         · split
-          · exact ok3 (parseUnquoted_rem _ _ _ _ hc) (by decide)
+          · exact ok3 (parseUnquoted_rem _ _ _ _ hc) (by split <;> decide)
           · exact ok3 hc (by decide)
       generalize (if ((cur s).1 == 0x22 || (cur s).1 == 0x27) = true then parseQuoted cfg (cur s).1 (f+1) [] 0 (mv (cur s).2)
             else if inUnquoted (cur s).1 = true then
-              (Code.ok, (parseUnquoted (f+1) [] (cur s).2).1, (parseUnquoted (f+1) [] (cur s).2).2)
+              ((if (parseUnquoted (f+1) [] (cur s).2).1.length > cfg.maxStrLen then Code.noMemory else Code.ok), (parseUnquoted (f+1) [] (cur s).2).1, (parseUnquoted (f+1) [] (cur s).2).2)
             else (Code.invalid, [], (cur s).2)) = kr at hkey ⊢
       obtain ⟨kc, key, s1⟩ := kr
       cases kc <;> simp only at ⊢ <;> try exact ok3 hkey.1 hkey.2
